@@ -380,6 +380,13 @@ func routerLoop(res *affResult) *affLoop {
 			return l
 		}
 	}
+	// an index loop `for i := range routes { r := &routes[i] ... }`: the element reference plays the value variable's part
+	for _, l := range res.loops {
+		if l.parent == nil && l.full && l.elem != "" && l.valVar == "" {
+			l.valVar = l.elem
+			return l
+		}
+	}
 	return nil
 }
 
@@ -487,6 +494,9 @@ func runAff1(m *Model, r *RuleResult) {
 				b = b[:j]
 			}
 			ev := l.valVar
+			// e.Edge.From is the promoted field e.From spelled through the embedded edge
+			a = strings.ReplaceAll(a, ev+".Edge.", ev+".")
+			b = strings.ReplaceAll(b, ev+".Edge.", ev+".")
 			wantA := fmt.Sprintf("0.5*%s.From.W + %s.From.X ; %s.From.H + %s.From.Y", ev, ev, ev, ev)
 			wantB := fmt.Sprintf("0.5*%s.To.W + %s.To.X ; %s.To.Y", ev, ev, ev)
 			if a != wantA {
@@ -699,7 +709,7 @@ func runAff2(m *Model, r *RuleResult) {
 						continue
 					}
 					il := it.star
-					if !il.backward {
+					if !(il.dir == -1 && il.full) {
 						bad = append(bad, "fitted pieces are iterated forward (they are ordered end to start, so the pieces would not join in output order)")
 					}
 					for _, bp := range il.paths {
@@ -708,6 +718,21 @@ func runAff2(m *Model, r *RuleResult) {
 							its = v
 						}
 						nFit++
+						if len(its) == 1 && its[0].star != nil && il.elem != "" {
+							// an inner loop over all controls of the piece, last to first, emitting each (a piece has 4: AFF-9 fit:float-slice-order)
+							jl := its[0].star
+							if jl.dir == -1 && jl.full && jl.container == il.elem+".Float64Slice()" && len(jl.paths) == 1 {
+								var jts []affItem
+								for _, v := range jl.paths[0].emits {
+									jts = v
+								}
+								if len(jts) == 1 && jts[0].star == nil && avalString(jts[0].val) == jl.elem {
+									continue
+								}
+							}
+							bad = append(bad, "the controls of a fitted piece are not emitted last to first by the inner loop over "+jl.over)
+							continue
+						}
 						if len(its) != 4 {
 							bad = append(bad, fmt.Sprintf("%d points per fitted piece", len(its)))
 							continue
@@ -1784,11 +1809,41 @@ func runAff9(m *Model, r *RuleResult) {
 		}
 		return nil
 	}
+	// a local that is assigned exactly once stands for the expression it was assigned (upperHalf := path[:k+1])
+	aliasOf := func(e ast.Expr) ast.Expr {
+		id, ok := e.(*ast.Ident)
+		if !ok {
+			return e
+		}
+		o := info.Uses[id]
+		if o == nil {
+			return e
+		}
+		var rhs ast.Expr
+		n := 0
+		ast.Inspect(fd.Body, func(nd ast.Node) bool {
+			as, ok := nd.(*ast.AssignStmt)
+			if !ok || len(as.Lhs) != len(as.Rhs) {
+				return true
+			}
+			for i, l := range as.Lhs {
+				if lid, ok := l.(*ast.Ident); ok && (info.Defs[lid] == o || info.Uses[lid] == o) {
+					n++
+					rhs = as.Rhs[i]
+				}
+			}
+			return true
+		})
+		if n == 1 && rhs != nil {
+			return rhs
+		}
+		return e
+	}
 	// path[:k+1] and path[k:]
 	okSplit := false
 	whySplit := "arguments are not path[:k+1] and path[k:]"
-	s1, ok1 := up.call.Args[0].(*ast.SliceExpr)
-	s2, ok2 := low.call.Args[0].(*ast.SliceExpr)
+	s1, ok1 := aliasOf(up.call.Args[0]).(*ast.SliceExpr)
+	s2, ok2 := aliasOf(low.call.Args[0]).(*ast.SliceExpr)
 	if ok1 && ok2 && identObj(s1.X) == params[0] && identObj(s2.X) == params[0] && s1.Low == nil && s2.High == nil && s1.High != nil && s2.Low != nil {
 		if be, ok := s1.High.(*ast.BinaryExpr); ok && be.Op == token.ADD {
 			if tv, ok := info.Types[be.Y]; ok && tv.Value != nil && tv.Value.String() == "1" {
@@ -1844,6 +1899,85 @@ func runAff9(m *Model, r *RuleResult) {
 	// ctrlp literals in package geom
 	nlit := 0
 	var bad []string
+	type ctorCall struct {
+		call     *ast.CallExpr
+		fieldArg map[string]int
+	}
+	var ctorCalls []ctorCall
+	judge := func(vals map[string]ast.Expr, at ast.Node, efd *ast.FuncDecl) {
+		var fparams []types.Object
+		if efd != nil {
+			for _, fl := range efd.Type.Params.List {
+				for _, nm := range fl.Names {
+					fparams = append(fparams, info.Defs[nm])
+				}
+			}
+		}
+		check := func(field string, wantIdx string, paramPos int) {
+			v := vals[field]
+			if v == nil {
+				bad = append(bad, m.Pos(at.Pos())+": "+field+" not set")
+				return
+			}
+			switch x := v.(type) {
+			case *ast.IndexExpr:
+				s := strings.ReplaceAll(types.ExprString(x.Index), " ", "")
+				base := strings.ReplaceAll(types.ExprString(x.X), " ", "")
+				want := wantIdx
+				if wantIdx != "0" {
+					want = "len(" + base + ")-1"
+				}
+				okIdx := s == want
+				if !okIdx && wantIdx != "0" && efd != nil {
+					// a constant index k is the last one where an enclosing `if len(X) == k+1` says so
+					if tv, isC := info.Types[x.Index]; isC && tv.Value != nil {
+						ast.Inspect(efd.Body, func(n ast.Node) bool {
+							ifs, isIf := n.(*ast.IfStmt)
+							if !isIf || !(ifs.Body.Pos() <= at.Pos() && at.End() <= ifs.Body.End()) {
+								return true
+							}
+							if be, isB := ifs.Cond.(*ast.BinaryExpr); isB && be.Op == token.EQL {
+								l := strings.ReplaceAll(types.ExprString(be.X), " ", "")
+								if rv, isC2 := info.Types[be.Y]; isC2 && rv.Value != nil && l == "len("+base+")" {
+									if rv.Value.String() == fmt.Sprint(mustInt(tv.Value.String())+1) {
+										okIdx = true
+									}
+								}
+							}
+							return true
+						})
+					}
+				}
+				if !okIdx {
+					bad = append(bad, fmt.Sprintf("%s: %s = %s, expected index %s of the path", m.Pos(at.Pos()), field, types.ExprString(v), want))
+				}
+			case *ast.SelectorExpr:
+				if x.Sel.Name != field {
+					bad = append(bad, fmt.Sprintf("%s: %s is copied from %s", m.Pos(at.Pos()), field, types.ExprString(v)))
+				}
+			case *ast.Ident:
+				// point parameter: p0 from the first point parameter, p3 from the second
+				o := info.Uses[x]
+				idx := -1
+				k := 0
+				for _, fp := range fparams {
+					if namedKey(fp.Type()) == "internal/geom.P" {
+						if fp == o {
+							idx = k
+						}
+						k++
+					}
+				}
+				if idx != paramPos {
+					bad = append(bad, fmt.Sprintf("%s: %s = %s is not the expected end point parameter", m.Pos(at.Pos()), field, x.Name))
+				}
+			default:
+				bad = append(bad, fmt.Sprintf("%s: %s = %s", m.Pos(at.Pos()), field, types.ExprString(v)))
+			}
+		}
+		check("p0", "0", 0)
+		check("p3", "len(path)-1", 1)
+	}
 	for _, f := range p.Syntax {
 		if m.IsPosctl(f.Pos()) {
 			continue
@@ -1868,80 +2002,61 @@ func runAff9(m *Model, r *RuleResult) {
 				}
 			}
 			efd := m.EnclosingFuncDecl(p, cl.Pos())
-			var fparams []types.Object
-			if efd != nil {
-				for _, fl := range efd.Type.Params.List {
-					for _, nm := range fl.Names {
-						fparams = append(fparams, info.Defs[nm])
-					}
-				}
-			}
-			check := func(field string, wantIdx string, paramPos int) {
-				v := vals[field]
-				if v == nil {
-					bad = append(bad, m.Pos(cl.Pos())+": "+field+" not set")
-					return
-				}
-				switch x := v.(type) {
-				case *ast.IndexExpr:
-					s := strings.ReplaceAll(types.ExprString(x.Index), " ", "")
-					base := strings.ReplaceAll(types.ExprString(x.X), " ", "")
-					want := wantIdx
-					if wantIdx != "0" {
-						want = "len(" + base + ")-1"
-					}
-					okIdx := s == want
-					if !okIdx && wantIdx != "0" && efd != nil {
-						// a constant index k is the last one where an enclosing `if len(X) == k+1` says so
-						if tv, isC := info.Types[x.Index]; isC && tv.Value != nil {
-							ast.Inspect(efd.Body, func(n ast.Node) bool {
-								ifs, isIf := n.(*ast.IfStmt)
-								if !isIf || !(ifs.Body.Pos() <= cl.Pos() && cl.End() <= ifs.Body.End()) {
-									return true
-								}
-								if be, isB := ifs.Cond.(*ast.BinaryExpr); isB && be.Op == token.EQL {
-									l := strings.ReplaceAll(types.ExprString(be.X), " ", "")
-									if rv, isC2 := info.Types[be.Y]; isC2 && rv.Value != nil && l == "len("+base+")" {
-										if rv.Value.String() == fmt.Sprint(mustInt(tv.Value.String())+1) {
-											okIdx = true
-										}
-									}
-								}
-								return true
-							})
-						}
-					}
-					if !okIdx {
-						bad = append(bad, fmt.Sprintf("%s: %s = %s, expected index %s of the path", m.Pos(cl.Pos()), field, types.ExprString(v), want))
-					}
-				case *ast.SelectorExpr:
-					if x.Sel.Name != field {
-						bad = append(bad, fmt.Sprintf("%s: %s is copied from %s", m.Pos(cl.Pos()), field, types.ExprString(v)))
-					}
-				case *ast.Ident:
-					// point parameter: p0 from the first point parameter, p3 from the second
-					o := info.Uses[x]
-					idx := -1
+			// a plain constructor (its body is `return ctrlp{<its own parameters>}`): judge its call sites instead
+			if efd != nil && efd.Recv == nil && len(efd.Body.List) == 1 {
+				if ret, ok := efd.Body.List[0].(*ast.ReturnStmt); ok && len(ret.Results) == 1 && ret.Results[0] == ast.Expr(cl) {
+					pidx := map[types.Object]int{}
 					k := 0
-					for _, fp := range fparams {
-						if namedKey(fp.Type()) == "internal/geom.P" {
-							if fp == o {
-								idx = k
-							}
+					for _, fl := range efd.Type.Params.List {
+						for _, nm := range fl.Names {
+							pidx[info.Defs[nm]] = k
 							k++
 						}
 					}
-					if idx != paramPos {
-						bad = append(bad, fmt.Sprintf("%s: %s = %s is not the expected end point parameter", m.Pos(cl.Pos()), field, x.Name))
+					fieldArg := map[string]int{}
+					pure := true
+					for f, v := range vals {
+						id, ok := v.(*ast.Ident)
+						if !ok {
+							pure = false
+							continue
+						}
+						if i, ok := pidx[info.Uses[id]]; ok {
+							fieldArg[f] = i
+						} else {
+							pure = false
+						}
 					}
-				default:
-					bad = append(bad, fmt.Sprintf("%s: %s = %s", m.Pos(cl.Pos()), field, types.ExprString(v)))
+					if pure && len(fieldArg) == 4 {
+						cobj := info.Defs[efd.Name]
+						for _, f2 := range p.Syntax {
+							ast.Inspect(f2, func(n2 ast.Node) bool {
+								call, ok := n2.(*ast.CallExpr)
+								if !ok || calleeObj(info, call) != cobj || len(call.Args) != k {
+									return true
+								}
+								ctorCalls = append(ctorCalls, ctorCall{call, fieldArg})
+								return true
+							})
+						}
+						return true
+					}
 				}
 			}
-			check("p0", "0", 0)
-			check("p3", "len(path)-1", 1)
+			judge(vals, cl, efd)
 			return true
 		})
+	}
+	for _, cc := range ctorCalls {
+		if m.IsPosctl(cc.call.Pos()) {
+			continue
+		}
+		nlit++
+		vals := map[string]ast.Expr{}
+		for f, i := range cc.fieldArg {
+			vals[f] = cc.call.Args[i]
+		}
+		judge(vals, cc.call, m.EnclosingFuncDecl(p, cc.call.Pos()))
 	}
 	if nlit >= 3 && len(bad) == 0 {
 		r.holds("fit:end-controls", pos, fmt.Sprintf("all %d ctrlp literals take p0/p3 from the path ends, from another piece's p0/p3 or from their end-point parameters", nlit))
